@@ -306,7 +306,7 @@ def parse_fn_block(lines, i, tname=''):
                 mm = re.match(r'subst\s+"(.*?)"\s+=>\s+"(.*)"$', d)
                 if not mm:
                     raise LostAnchor('bad subst directive: ' + d)
-                spec.setdefault('substs', []).append((mm.group(1).replace('\\n', '\n'), mm.group(2).replace('\\n', '\n')))
+                spec.setdefault('substs', []).append((mm.group(1).replace('\\N', '\n'), mm.group(2).replace('\\N', '\n')))
                 cur = None
             elif w[0] == 'rename':
                 spec['rename'] = w[1]
